@@ -22,9 +22,25 @@ pub enum IoKind {
     WouldBlock,
     StorageFull,
     TimedOut,
+    ConnectionReset,
+    PermissionDenied,
+    UnexpectedEof,
+    WriteZero,
+    Unsupported,
 }
 
-pub const IO_KINDS: [IoKind; 5] = [IoKind::Other, IoKind::BrokenPipe, IoKind::WouldBlock, IoKind::StorageFull, IoKind::TimedOut];
+pub const IO_KINDS: [IoKind; 10] = [
+    IoKind::Other,
+    IoKind::BrokenPipe,
+    IoKind::WouldBlock,
+    IoKind::StorageFull,
+    IoKind::TimedOut,
+    IoKind::ConnectionReset,
+    IoKind::PermissionDenied,
+    IoKind::UnexpectedEof,
+    IoKind::WriteZero,
+    IoKind::Unsupported,
+];
 
 impl IoKind {
     fn to_err(self) -> io::Error {
@@ -34,6 +50,11 @@ impl IoKind {
             IoKind::WouldBlock => io::ErrorKind::WouldBlock,
             IoKind::StorageFull => io::ErrorKind::StorageFull,
             IoKind::TimedOut => io::ErrorKind::TimedOut,
+            IoKind::ConnectionReset => io::ErrorKind::ConnectionReset,
+            IoKind::PermissionDenied => io::ErrorKind::PermissionDenied,
+            IoKind::UnexpectedEof => io::ErrorKind::UnexpectedEof,
+            IoKind::WriteZero => io::ErrorKind::WriteZero,
+            IoKind::Unsupported => io::ErrorKind::Unsupported,
         };
         io::Error::new(k, "injected sink fault")
     }
